@@ -296,3 +296,7 @@ func vStreamReadAll(s int, p []byte) int {
 	st.buf = st.buf[n:]
 	return n
 }
+
+// vSpins: number of background goroutines the engine retired because they were busy-looping
+// (not observable natively: 0).
+func vSpins() int { return 0 }
